@@ -43,6 +43,7 @@ type FuncContract struct {
 	Results    []string
 	Requires   []*Clause
 	Ensures    []*Clause
+	Assumes    []*Clause // post-assumptions: used by callers, NOT proved (listed as assumptions in evidence)
 	Modifies   []*Clause
 	ModAll     bool // "modifies *"
 	ModAuto    bool // "modifies auto": the inferred may-write set of the function
@@ -128,7 +129,7 @@ var clauseKeywords = map[string]bool{
 	"nooverflow": true, "trusted": true, "loop": true, "invariant": true, "decreases": true,
 	"results": true, "pred": true, "spec": true, "axiom": true, "lemma": true, "vars": true,
 	"call": true, "assume": true, "assert": true, "maypanic": true, "checknil": true, "pure": true,
-	"opaque": true, "noinline": true, "harness": true, "hide": true, "iter": true, "bounded": true, "note": true, "at": true, "before": true, "after": true,
+	"opaque": true, "noinline": true, "harness": true, "hide": true, "iter": true, "assumes": true, "bounded": true, "note": true, "at": true, "before": true, "after": true,
 }
 
 // rewriteImplies turns "a ==> b" into "implies(a, b)" at every parenthesis level (right associative,
@@ -450,6 +451,12 @@ func (C *Contracts) parseFile(path, pkgPath string) error {
 			for _, r := range strings.Split(rest, ",") {
 				curF.Results = append(curF.Results, strings.TrimSpace(r))
 			}
+		case "assumes":
+			c, err := mk(rest, l.line)
+			if err != nil {
+				return err
+			}
+			curF.Assumes = append(curF.Assumes, c)
 		case "requires", "ensures", "invariant", "decreases", "assume", "assert", "before", "after":
 			c, err := mk(rest, l.line)
 			if err != nil {
